@@ -408,19 +408,47 @@ func RunCase(k *fw.Case, cfg *Config) {
 					}
 				}
 			}
-			nr := *old
-			nr.ID = old.ID + 1000
-			nr.Fail, nr.FailInReturn, nr.Custom = FailNone, false, ""
-			if r.Intn(4) == 0 {
-				nr.Fail = FailDivZero
+			// the update text carries 1-3 rules: the replacement(s) and, sometimes, a rule that is new
+			olds := []*Rule{old}
+			for extra := r.Intn(3); extra > 0; extra-- {
+				c := rs.Rules[r.Intn(len(rs.Rules))]
+				dup := false
+				for _, o := range olds {
+					dup = dup || o == c
+				}
+				if !dup {
+					olds = append(olds, c)
+				}
 			}
-			if nr.Ret != RetNone {
-				nr.RetVal = old.RetVal + 7
+			var news []*Rule
+			txt := ""
+			for _, o := range olds {
+				nr := *o
+				nr.ID = o.ID + 1000
+				nr.Fail, nr.FailInReturn, nr.Custom = FailNone, false, ""
+				if r.Intn(4) == 0 {
+					nr.Fail = FailDivZero
+				}
+				if nr.Ret != RetNone {
+					nr.RetVal = o.RetVal + 7
+				}
+				if r.Intn(2) == 0 {
+					nr.HasSal, nr.Sal = true, int64(r.Intn(7)-3)
+				}
+				news = append(news, &nr)
 			}
-			if r.Intn(2) == 0 {
-				nr.HasSal, nr.Sal = true, int64(r.Intn(7)-3)
+			var added *Rule
+			if r.Intn(3) == 0 {
+				added = &Rule{ID: 3000 + len(rs.Rules), Name: fmt.Sprintf("added-%d", len(rs.Rules)), HasSal: true, Sal: int64(r.Intn(7) - 3)}
 			}
-			txt := nr.Text(r)
+			parts := append([]*Rule{}, news...)
+			if added != nil {
+				parts = append(parts, added)
+			}
+			r.Shuffle(len(parts), func(i, j int) { parts[i], parts[j] = parts[j], parts[i] })
+			for _, pr := range parts {
+				txt += pr.Text(r)
+			}
 			var uerr error
 			CompileLocked(func() error {
 				uerr = eng.RB.BuildRuleWithIncremental(txt)
@@ -434,10 +462,16 @@ func RunCase(k *fw.Case, cfg *Config) {
 				return
 			}
 			for ri := range rs.Rules {
-				if rs.Rules[ri] == old {
-					rs.Rules[ri] = &nr
+				for oi, o := range olds {
+					if rs.Rules[ri] == o {
+						rs.Rules[ri] = news[oi]
+					}
 				}
 			}
+			if added != nil {
+				rs.Rules = append(rs.Rules, added)
+			}
+			k.Count("rules_replaced_mid_case", int64(len(olds)))
 			rs.Text += "\n// replaced incrementally:\n" + txt
 			sh = shape(rs)
 			k.Count("rule_sets_with_a_mid_case_replacement", 1)
